@@ -252,6 +252,8 @@ def api_level(ck, dist) -> None:
     for gen, n_acs, n_zones in shapes:
         for silent in (False, True):
             inst = console.simple_installation(gen, n_acs, n_zones)
+            # what the console answers a heartbeat with: an ordinary version, a blank one, two consoles' versions
+            inst.version = [(False, ["1.2.3"]), (False, [""]), (True, ["1.1.0", "1.0.9"])][(n_acs + n_zones + int(silent)) % 3]
             rig = console.ApiRig(inst)
             try:
                 r, _ = rig.init()
